@@ -157,6 +157,31 @@ def check_decl(d):
     return "bad", "%s is declared as (%s<-%s) but its initialiser composes to (%s<-%s)" % (n, want[0], want[1], got[0], got[1])
 
 
+def check_vec_decl(d):
+    """declared vector `v_.._E = L * something`: the result is expressed in L's outer frame, which must be the frame the name says"""
+    n = re.sub(r"^m_", "", d.get("var") or "")
+    init = d.get("init")
+    if not (isinstance(init, list) and init and init[0] == "opc" and init[1] == "*" and len(init) == 4):
+        return "skip", ""
+    L = rot_monogram(init[2])
+    if not L:
+        return "skip", ""
+    m3, m2, m1 = VEC3.match(n), VEC2.match(n), VEC1.match(n)
+    if m3:
+        want = m3.group(4)
+    elif m2 and m2.group(1) not in ("R", "X"):
+        want = m2.group(2)
+    elif m1 and m1.group(1) not in ("R", "X", "p"):
+        want = m1.group(2)      # (p_S names a point S, not a frame of expression)
+    else:
+        return "skip", ""
+    if RX2.match(n):
+        return "skip", ""
+    if want == L[0]:
+        return "ok", "%s expressed in %s = (%s<-%s) * ..." % (n, want, L[0], L[1])
+    return "bad", "%s is named as expressed in %s but is produced by a rotation/transform into %s" % (n, want, L[0])
+
+
 def check_assign(e):
     """`X_AD = product` assignments to named rotations/transforms (locals or members)"""
     x = e["x"]
@@ -196,3 +221,6 @@ def scan(P, file_pred):
                 st, det = check_decl(e)
                 if st != "skip":
                     yield fn, e, "decl", st, det
+                st, det = check_vec_decl(e)
+                if st != "skip":
+                    yield fn, e, "vecdecl", st, det
